@@ -577,7 +577,7 @@ func (i *interpreter) runPath(fn *ssa.Function, prefix []Decision) (res PathResu
 	i.prefix = prefix
 	i.dpos = 0
 	i.decs = nil
-	i.pc = nil
+	i.pc = append([]*sym.Term(nil), i.initPC...)
 	i.pending = nil
 	i.tape = nil
 	i.steps = 0
